@@ -319,6 +319,30 @@ impl GraphEngine {
         read_i2e_snapshot(&self.idmap)
     }
 
+    /// Label sets are only partially stored in the node table (one label per record), so a
+    /// checkpoint that lets recovery skip older transactions must re-log every difference
+    /// between the stored label and the current label set.
+    fn label_delta_records(&self) -> Vec<WalRecord> {
+        let idmap = self.idmap.lock().unwrap();
+        let mut out = Vec::new();
+        for (iid, rec) in idmap.get_i2e_snapshot().iter().enumerate() {
+            let node = iid as InternalNodeId;
+            let current = idmap.get_labels(node).unwrap_or_default();
+            if !current.contains(&rec.label_id) {
+                out.push(WalRecord::RemoveNodeLabel {
+                    node,
+                    label_id: rec.label_id,
+                });
+            }
+            for label_id in current {
+                if label_id != rec.label_id {
+                    out.push(WalRecord::AddNodeLabel { node, label_id });
+                }
+            }
+        }
+        out
+    }
+
     fn publish_run(&self, run: Arc<L0Run>) {
         let mut current = self.published_runs.write().unwrap();
         let mut next = Vec::with_capacity(current.len() + 1);
@@ -464,10 +488,14 @@ impl GraphEngine {
             })
             .collect();
 
+        let label_delta = self.label_delta_records();
         let system_txid = self.next_txid.fetch_add(1, Ordering::Relaxed);
         {
             let mut wal = self.wal.lock().unwrap();
             wal.append(&WalRecord::BeginTx { txid: system_txid })?;
+            for rec in &label_delta {
+                wal.append(rec)?;
+            }
             wal.append(&WalRecord::ManifestSwitch {
                 epoch,
                 segments: pointers,
@@ -573,6 +601,8 @@ impl GraphEngine {
                 });
             }
         }
+
+        ops.extend(self.label_delta_records());
 
         let (properties_root, stats_root) =
             load_properties_and_stats_roots(&self.properties_root, &self.stats_root);
